@@ -181,4 +181,13 @@ CHECKS["C18"] = dict(
     steps=[dict(name="requestreply", run="^TestRequestReply$", quick=150, thorough=6000, shards_thorough=16)],
 )
 
+CHECKS["C01"] = dict(
+    pkg="c01", race=True, level="fault_enumeration", timeout_quick=900, timeout_thorough=3000,
+    technique="fault-script enumeration and rapid-generated fault sequences on real Router/GoChannel pipelines (faults injected in handlers and in a publisher wrapper on the k-th call), lineage-based at-least-once oracle and ack-after-accept invariant over every invocation",
+    level_text="Pipelines of real Routers over real GoChannels are run with scripted faults: every placement of up to 2 faults (5 kinds x k in 1..3) on small pipelines is enumerated, longer random fault scripts cover all shapes (fan-in, fan-out, 1..4 stages, blocking, per-hop instances) with schedule noise. Every source message must reach the final topic for every path, everything at the final topic must derive from a published source with the expected transform, and every invocation's consumed copy must be unsettled inside its output Publish and end Acked only after a successful Publish, otherwise Nacked.",
+    level_note="Trusted: the fault-injecting publisher wrapper, lineage bookkeeping in handler metadata, bounded liveness (10 s, re-confirmed). Crash points (process death) are not modelled: GoChannel is in-process.",
+    steps=[dict(name="exhaustive", run="^TestExhaustiveFaultPlacements$", quick=1, thorough=1),
+           dict(name="random", run="^TestRandomPipelines$", quick=300, thorough=20000, shards_thorough=15)],
+)
+
 NOT_APPLICABLE = {}
